@@ -95,9 +95,61 @@ func largeElementCase(rt *rapid.T) valueCase {
 	return valueCase{v, dt, rep, av}
 }
 
+// manyElementsCase: collections whose element COUNT sits at the boundaries of the count prefix - a [short] in protocol v2
+// (32767, 32768, 40000, 65535 elements), an [int] from v3 (also 65536 and 70000 here). Elements are small integers.
+func manyElementsCase(rt *rapid.T) valueCase {
+	v := gen.Version(rt)
+	if rapid.Bool().Draw(rt, "v2") {
+		v = primitive.ProtocolVersion2
+	}
+	et := rapid.SampledFrom([]datatype.DataType{datatype.Int, datatype.Bigint}).Draw(rt, "elementType")
+	var dt datatype.DataType
+	shape := rapid.IntRange(0, 2).Draw(rt, "shape")
+	switch shape {
+	case 0:
+		dt = datatype.NewList(et)
+	case 1:
+		dt = datatype.NewSet(et)
+	default:
+		dt = datatype.NewMap(et, datatype.Int)
+	}
+	counts := []int{32767, 32768, 40000, 65535}
+	if v != primitive.ProtocolVersion2 {
+		counts = append(counts, 65536, 70000)
+	}
+	n := rapid.SampledFrom(counts).Draw(rt, "count")
+	rep := gen.DrawRep(rt, dt, false, "rep")
+	rep.Iface = false
+	if rep.Kind == "array" {
+		rep.ArrLen = n
+	}
+	// tens of thousands of distinct integers: the element (and key) representation must be wide enough to hold them
+	rep.Elem.Kind = gen.PreferredKind(datatype.Int.Code())
+	if shape != 2 {
+		rep.Elem.Kind = gen.PreferredKind(et.Code())
+	}
+	if rep.Key != nil {
+		rep.Key.Kind = gen.PreferredKind(et.Code())
+	}
+	av := gen.AV{Elems: make([]gen.AV, 0, n)}
+	for i := 0; i < n; i++ {
+		e := gen.AV{Int: big64(int64(i) - 7)}
+		if shape == 2 {
+			av.Keys = append(av.Keys, e)
+			av.Elems = append(av.Elems, gen.AV{Int: big64(int64(i % 5))})
+		} else {
+			av.Elems = append(av.Elems, e)
+		}
+	}
+	return valueCase{v, dt, rep, av}
+}
+
 func drawValueCase(rt *rapid.T) valueCase {
-	if rapid.IntRange(0, 15).Draw(rt, "largeElements") == 0 {
+	switch k := rapid.IntRange(0, 1023).Draw(rt, "largeElements"); {
+	case k < 64:
 		return largeElementCase(rt)
+	case k == 64: // rare: each costs seconds (tens of thousands of reflected elements)
+		return manyElementsCase(rt)
 	}
 	v := gen.Version(rt)
 	dt := gen.ValueType(rt, v, rapid.IntRange(0, valueDepth()).Draw(rt, "depth"), "type")
